@@ -14,6 +14,10 @@ import PandoraModel.Model.PyInterp
 import PandoraModel.Generated.KernelsInterp
 import PandoraModel.Lemmas.InterpBits
 import Mathlib.Tactic.Linarith
+import Mathlib.Tactic.Ring
+import Mathlib.Tactic.NormNum
+import Mathlib.Tactic.IntervalCases
+import Mathlib.Data.Rat.Lemmas
 
 set_option linter.unusedSimpArgs false
 
@@ -262,6 +266,382 @@ theorem occlusionSgm_generated_eq (m : DMap) (r c : Nat) (hr : r < m.rows) (hc :
       simp [secondLowestAbs, raise, filledOcclusion, inb, wrap, Interp.isort]
   · simp [hocc, embedDisp, embedFlag]
 
+/-! ## `interpolate_mismatch_sgm` -/
+
+theorem clipIdx_natCast {n a : Nat} (h : a ≤ n) : clipIdx (n : Int) (a : Int) = a := by
+  have h1 : ¬ ((a : Int) < 0) := by omega
+  have h2 : ¬ ((n : Int) < (a : Int)) := by omega
+  simp [clipIdx, h1, h2]
+
+theorem sum_natCast (l : List Nat) (f : Nat → Nat) :
+    (((l.map f).sum : Nat) : Int) = (l.map fun x => ((f x : Nat) : Int)).sum := by
+  induction l with
+  | nil => simp
+  | cons x t ih => simp only [List.map_cons, List.sum_cons, Nat.cast_add, ih]
+
+theorem allNonneg2_embedFlag (m : DMap) (n0 n1 lo0 hi0 lo1 hi1 : Int) :
+    allNonneg2 (embedFlag m) n0 n1 lo0 hi0 lo1 hi1 = true := by
+  simp [allNonneg2, embedFlag_nonneg]
+
+/-- the clipped 3×3 slice sum of the source, whatever the text of its four bounds, is the hand model's
+    `occlusionSum3x3` as soon as the bounds have the values `max(0, i-1)` / `min(n-1, i+1) + 1` -/
+theorem sumBand2_eq (m : DMap) (r c : Nat) (lo0 hi0 lo1 hi1 : Int) (hr : r < m.rows) (hc : c < m.cols)
+    (e0 : lo0 = ((r - 1 : Nat) : Int)) (e1 : hi0 = ((min (m.rows - 1) (r + 1) + 1 : Nat) : Int))
+    (e2 : lo1 = ((c - 1 : Nat) : Int)) (e3 : hi1 = ((min (m.cols - 1) (c + 1) + 1 : Nat) : Int)) :
+    sumBand2 (embedFlag m) m.rows m.cols lo0 hi0 lo1 hi1 256 = ((occlusionSum3x3 m r c : Nat) : Int) := by
+  subst e0 e1 e2 e3
+  have h256 : (256 : Int) = ((256 : Nat) : Int) := rfl
+  simp only [sumBand2, sliceIdx, occlusionSum3x3, occlusion,
+    clipIdx_natCast (show r - 1 ≤ m.rows by omega), clipIdx_natCast (show min (m.rows - 1) (r + 1) + 1 ≤ m.rows by omega),
+    clipIdx_natCast (show c - 1 ≤ m.cols by omega), clipIdx_natCast (show min (m.cols - 1) (c + 1) + 1 ≤ m.cols by omega)]
+  rw [sum_natCast]
+  congr 1
+  apply List.map_congr_left
+  intro i _
+  rw [sum_natCast]
+  congr 1
+
+/-- bounds of the 3×3 window written with `max` / `min` in any order -/
+macro "window_bound" : tactic => `(tactic| (
+  simp only [imax, imin]
+  (repeat' split) <;> omega))
+
+/-- **One pixel of `interpolate_mismatch_sgm`, as the source defines it today, is the hand model's `mismSgmPixel`**
+    (guarded text, bits raised with `|=`): the clipped 3×3 occlusion test, the conversion mismatch → occlusion, the
+    call of `find_valid_neighbors`, the guard and the `nanmedian` fill — for every map and every pixel inside it. -/
+theorem mismatchSgm_generated_eq (m : DMap) (r c : Nat) (hr : r < m.rows) (hc : c < m.cols) :
+    mismatchSgmPx (embedDisp m) m.rows m.cols (embedFlag m) m.rows m.cols r c
+      = .ok ((mismSgmPixel ⟨true, .or⟩ m r c).1, (((mismSgmPixel ⟨true, .or⟩ m r c).2 : Nat) : Int)) := by
+  have hr0 : (0 : Int) ≤ r := Int.natCast_nonneg r
+  have hc0 : (0 : Int) ≤ c := Int.natCast_nonneg c
+  have hrR : (r : Int) < m.rows := by exact_mod_cast hr
+  have hcC : (c : Int) < m.cols := by exact_mod_cast hc
+  have hcall := findValidNeighbors_generated_eq m r c
+  simp only [sgmDirs] at hcall
+  have h512 : (512 : Int) = ((512 : Nat) : Int) := rfl
+  have h256 : (256 : Int) = ((256 : Nat) : Int) := rfl
+  have h32 : (32 : Int) = ((32 : Nat) : Int) := rfl
+  have hb : embedFlag m (r : Int) (c : Int) = ((m.flag r c : Nat) : Int) := by simp [embedFlag]
+  simp only [mismatchSgmPx, get2_of (embedFlag m) _ _ hr0 hc0, get2_of (embedDisp m) _ _ hr0 hc0,
+    inb2_of hr0 hrR hc0 hcC, embedFlag_nonneg, decide_true, Bool.and_true, hcall, Res.isOk, Res.getD,
+    allNonneg2_embedFlag]
+  rw [sumBand2_eq m r c _ _ _ _ hr hc ?e0 ?e1 ?e2 ?e3]
+  · rw [h512, flag_test m r c 512]
+    have hmi : mismatch = 512 := rfl
+    have hoc : occlusion = 256 := rfl
+    have hfm : filledMismatch = 32 := rfl
+    unfold mismSgmPixel
+    simp only [hmi, hoc, hfm]
+    by_cases hmis : ((m.flag r c &&& 512) != 0) = true
+    · have hle : 512 ≤ m.flag r c := le_of_and_two_pow (k := 9) hmis
+      have hnn : (0 : Int) ≤ ((m.flag r c : Nat) : Int) - ((512 : Nat) : Int) := by omega
+      have hbor1 := sub_bor (m.flag r c) 512 256 hle
+      have hbor2 := sub_bor (m.flag r c) 512 32 hle
+      simp only [hmis, if_true, hb, hnn, decide_true, Bool.and_true, h256, h32, hbor1, hbor2]
+      by_cases hs : occlusionSum3x3 m r c = 0
+      · by_cases hg : (nums (Interp.findValidNeighbors m r c)).isEmpty = true
+        · simp [hs, hg, anyFinite, embedDisp]
+        · simp [hs, hg, anyFinite, PyInterp.nanmedian, raise]
+      · have : ¬ (((occlusionSum3x3 m r c : Nat) : Int) = 0) := by exact_mod_cast hs
+        simp [hs, this, raise, embedDisp]
+    · simp [hmis, embedDisp, embedFlag]
+  all_goals window_bound
+
+/-! ## `interpolate_occlusion_mc_cnn` -/
+
+theorem wrap_nonneg {n i : Int} (h : 0 ≤ i) : wrap n i = i := by
+  have : ¬ i < 0 := by omega
+  simp [wrap, this]
+
+/-- `(valid[r, a:b] & INVALID) == 0` on the `Int` reading of the mask is the list of `DMap.valid` over columns `a … b-1`,
+    whatever the text of the index and of the two bounds (their values are what matters) -/
+theorem rowMask_eq (m : DMap) (r a b : Nat) (i lo hi : Int) (hr : r < m.rows)
+    (ei : i = (r : Int)) (elo : lo = (a : Int)) (ehi : hi = (b : Int)) (hab : a ≤ b) (hb : b ≤ m.cols) :
+    rowMaskZero (embedFlag m) m.rows m.cols i lo hi 963 = (List.range' a (b - a)).map fun j => m.valid r j := by
+  subst ei elo ehi
+  simp only [rowMaskZero, rowSlice, clipIdx_natCast (show a ≤ m.cols by omega), clipIdx_natCast hb, List.map_map,
+    wrap_nonneg (Int.natCast_nonneg r)]
+  apply List.map_congr_left
+  intro j _
+  have := valid_test m ((r : Int), (j : Int))
+  simpa [DMap.validAt] using this
+
+theorem rowNonneg_embedFlag (m : DMap) (n0 n1 i lo hi : Int) : rowNonneg (embedFlag m) n0 n1 i lo hi = true := by
+  simp [rowNonneg, rowSlice, embedFlag_nonneg]
+
+theorem argmaxBool_lt (l : List Bool) (h : 0 < l.length) : argmaxBool l < l.length := by
+  unfold argmaxBool
+  simp only
+  split
+  · assumption
+  · exact h
+
+theorem vget_natCast {α : Type} (d : α) (v : List α) (k : Nat) : vget d v (k : Int) = v.getD k d := by
+  simp [vget, wrap_nonneg (Int.natCast_nonneg k)]
+
+theorem vinb_natCast {α : Type} (v : List α) (k : Nat) (h : k < v.length) : vinb v (k : Int) = true := by
+  simp only [vinb]
+  exact inb_of (Int.natCast_nonneg k) (by exact_mod_cast h)
+
+theorem range'_map_shift {β : Type} (c n : Nat) (f : Nat → β) :
+    (List.range' c n).map f = (List.range n).map fun k => f (c + k) := by
+  rw [List.range'_eq_map_range, List.map_map]
+  rfl
+
+/-- `out_val -= OCC * found; out_val |= FILLED_OCC * found` on a word carrying the occlusion bit -/
+theorem flag_update (f : Nat) (b : Bool) (hle : 256 ≤ f) :
+    bor ((f : Int) - 256 * b2i b) (16 * b2i b) = ((raise .or (f - 256 * b2n b) (16 * b2n b) : Nat) : Int)
+    ∧ 0 ≤ (f : Int) - 256 * b2i b ∧ (0 : Int) ≤ 16 * b2i b := by
+  cases b with
+  | true =>
+    have := sub_bor f 256 16 hle
+    simp only [b2i, b2n, if_true, Int.mul_one, Nat.mul_one, raise]
+    refine ⟨by simpa using this, by omega, by omega⟩
+  | false =>
+    simp [b2i, b2n, raise, bor]
+
+/-- **One pixel of `interpolate_occlusion_mc_cnn`, as the source defines it today, is the hand model's `occlMcPixel`**:
+    the mask of the row up to the pixel, reversed, its `argmax`, the second mask to the right when nothing is found,
+    `msk[arg_valid]`, the flag update multiplied by it and the disparity copied from `row ∓ arg_valid` — every read
+    inside the arrays, no `argmax` of an empty mask. -/
+theorem occlusionMcCnn_generated_eq (m : DMap) (r c : Nat) (hr : r < m.rows) (hc : c < m.cols) :
+    occlusionMcCnnPx (embedDisp m) m.rows m.cols (embedFlag m) m.rows m.cols r c
+      = .ok ((occlMcPixel ⟨true, .or⟩ m r c).1, (((occlMcPixel ⟨true, .or⟩ m r c).2 : Nat) : Int)) := by
+  have hr0 : (0 : Int) ≤ r := Int.natCast_nonneg r
+  have hc0 : (0 : Int) ≤ c := Int.natCast_nonneg c
+  have hrR : (r : Int) < m.rows := by exact_mod_cast hr
+  have hcC : (c : Int) < m.cols := by exact_mod_cast hc
+  have h256 : (256 : Int) = ((256 : Nat) : Int) := rfl
+  have hb : embedFlag m (r : Int) (c : Int) = ((m.flag r c : Nat) : Int) := by simp [embedFlag]
+  have hL := rowMask_eq m r 0 (c + 1) (r : Int) 0 ((c : Int) + 1) hr rfl rfl (by push_cast; rfl) (by omega) (by omega)
+  have hR := rowMask_eq m r c m.cols (r : Int) (c : Int) (m.cols : Int) hr rfl rfl rfl (by omega) (by omega)
+  rw [Nat.sub_zero, ← List.range_eq_range'] at hL
+  rw [range'_map_shift] at hR
+  simp only [occlusionMcCnnPx, get2_of (embedFlag m) _ _ hr0 hc0, get2_of (embedDisp m) _ _ hr0 hc0,
+    inb2_of hr0 hrR hc0 hcC, inb_of hr0 hrR, embedFlag_nonneg, decide_true, Bool.and_true, Bool.true_and,
+    rowNonneg_embedFlag, hL, hR]
+  have hft := flag_test m r c 256
+  rw [show ((256 : Nat) : Int) = 256 from rfl] at hft
+  rw [hft]
+  have hoc : occlusion = 256 := rfl
+  have hfo : filledOcclusion = 16 := rfl
+  unfold occlMcPixel occlMcCore
+  simp only [hoc, hfo]
+  by_cases hocc : ((m.flag r c &&& 256) != 0) = true
+  · have hle : 256 ≤ m.flag r c := le_of_and_two_pow (k := 8) hocc
+    generalize hLdef : ((List.range (c + 1)).map fun j => m.valid r j).reverse = L
+    generalize hRdef : ((List.range (m.cols - c)).map fun k => m.valid r (c + k)) = R
+    have hLlen : L.length = c + 1 := by rw [← hLdef]; simp
+    have hRlen : R.length = m.cols - c := by rw [← hRdef]; simp
+    have haL := argmaxBool_lt L (by omega)
+    have haR := argmaxBool_lt R (by omega)
+    have hLne : L.isEmpty = false := by cases L with | nil => simp at hLlen | cons _ _ => rfl
+    have hRne : R.isEmpty = false := by cases R with | nil => simp at hRlen; omega | cons _ _ => rfl
+    simp only [hocc, if_true, PyInterp.argmax, hLne, hRne, Bool.not_false, Bool.and_true, vget_natCast,
+      vinb_natCast L _ haL, vinb_natCast R _ haR, hb]
+    by_cases ha0 : argmaxBool L = 0
+    · have hd : (((argmaxBool L : Nat) : Int) = 0) := by exact_mod_cast ha0
+      generalize R.getD (argmaxBool R) false = found
+      obtain ⟨f1, f2, f3⟩ := flag_update (m.flag r c) found hle
+      -- whatever the text of the index (`row + arg_valid`, `arg_valid + row`, …): its value is what matters
+      have hin : ∀ j : Int, j = (c : Int) + ((argmaxBool R : Nat) : Int) →
+          inb2 (m.rows : Int) (m.cols : Int) (r : Int) j = true := by
+        intro j hj; subst hj; exact inb2_of hr0 hrR (by omega) (by omega)
+      have hget : ∀ j : Int, j = (c : Int) + ((argmaxBool R : Nat) : Int) →
+          get2 (embedDisp m) (m.rows : Int) (m.cols : Int) (r : Int) j = m.disp r (c + argmaxBool R) := by
+        intro j hj; subst hj
+        rw [get2_of _ _ _ hr0 (by omega)]
+        simp only [embedDisp, Int.toNat_natCast]
+        congr 1
+      simp (disch := omega) only [hd, ha0, Nat.cast_zero, f1, f2, f3, hin, hget, decide_true, if_true, Bool.and_true, Bool.and_self, beq_self_eq_true]
+    · have hd : ¬ (((argmaxBool L : Nat) : Int) = 0) := by exact_mod_cast ha0
+      generalize L.getD (argmaxBool L) false = found
+      obtain ⟨f1, f2, f3⟩ := flag_update (m.flag r c) found hle
+      have hin : ∀ j : Int, j = (c : Int) - ((argmaxBool L : Nat) : Int) →
+          inb2 (m.rows : Int) (m.cols : Int) (r : Int) j = true := by
+        intro j hj; subst hj; exact inb2_of hr0 hrR (by omega) (by omega)
+      have hget : ∀ j : Int, j = (c : Int) - ((argmaxBool L : Nat) : Int) →
+          get2 (embedDisp m) (m.rows : Int) (m.cols : Int) (r : Int) j = m.disp r (c - argmaxBool L) := by
+        intro j hj; subst hj
+        rw [get2_of _ _ _ hr0 (by omega)]
+        simp only [embedDisp, Int.toNat_natCast]
+        congr 1
+        omega
+      have hbeq : (argmaxBool L == 0) = false := by simp [ha0]
+      simp (disch := omega) only [hd, hbeq, f1, f2, f3, hin, hget, decide_true, decide_false, Bool.false_eq_true, if_false, if_true, Bool.and_true, Bool.and_self]
+  · simp [hocc, embedDisp, embedFlag]
+
+/-! ## `interpolate_mismatch_mc_cnn` -/
+
+/-- Python `int(q)` of `q = (n / 2) * i` is the hand model's `truncHalf n i` (`Int.tdiv (n * i) 2`) -/
+theorem truncRat_half (n i : Int) : truncRat (((n : Rat) / 2) * (i : Rat)) = Int.tdiv (n * i) 2 := by
+  have e : ((n : Rat) / 2) * (i : Rat) = (((n * i : Int)) : Rat) / (((2 : Int)) : Rat) := by push_cast; ring
+  rw [e]
+  obtain ⟨g, h1, h2⟩ := Rat.exists_eq_mul_div_num_and_eq_mul_div_den (n * i) (d := 2) (by norm_num)
+  have hden : (0 : Int) < (((((n * i : Int)) : Rat) / (((2 : Int)) : Rat)).den : Int) := by
+    exact_mod_cast Rat.den_pos _
+  have hg : 0 < g := by
+    by_contra hneg
+    have : g ≤ 0 := by omega
+    nlinarith
+  unfold truncRat
+  calc Int.tdiv ((((n * i : Int)) : Rat) / (((2 : Int)) : Rat)).num (((((n * i : Int)) : Rat) / (((2 : Int)) : Rat)).den : Int)
+      = Int.tdiv (g * ((((n * i : Int)) : Rat) / (((2 : Int)) : Rat)).num) (g * (((((n * i : Int)) : Rat) / (((2 : Int)) : Rat)).den : Int)) := by
+        rw [Int.mul_tdiv_mul_of_pos _ _ hg]
+    _ = Int.tdiv (n * i) 2 := by rw [← h1, ← h2]
+
+/-- A generated loop whose body — whatever its text — leaves with NaN outside the image, leaves with the disparity on
+    a valid pixel and otherwise goes on, at the position `pos i` of its iteration `i`, computes `Interp.scanLoop`
+    (accumulator cell initialised with NaN). -/
+theorem forLoop_scanLoop (m : DMap) (pos : Nat → Int × Int) (body : Int → Bool × Val → Bool × (Bool × Val))
+    (h : ∀ (i : Nat) (ok : Bool) (out : Val), body (i : Int) (ok, out) =
+      if !m.inside (pos i) then (true, (ok, Val.nan))
+      else if m.validAt (pos i) then (true, (ok, m.dispAt (pos i)))
+      else (false, (ok, out))) :
+    ∀ (n i : Nat) (ok : Bool), forLoop body 1 n (i : Int) (ok, Val.nan) = (ok, scanLoop Val.nan m pos n i) := by
+  intro n
+  induction n with
+  | zero => intro i ok; simp [forLoop, scanLoop]
+  | succ n ih =>
+    intro i ok
+    simp only [forLoop, h, scanLoop]
+    by_cases hin : m.inside (pos i) = true
+    · by_cases hv : m.validAt (pos i) = true
+      · simp [hin, hv]
+      · simp only [hin, hv, Bool.not_true, Bool.false_eq_true, if_false]
+        have := ih (i + 1) ok
+        rw [show (((i + 1 : Nat)) : Int) = (i : Int) + 1 by push_cast; rfl] at this
+        exact this
+    · simp [hin]
+
+theorem forRange_scanLoop (m : DMap) (pos : Nat → Int × Int) (b : Int) (body : Int → Bool × Val → Bool × (Bool × Val))
+    (h : ∀ (i : Nat) (ok : Bool) (out : Val), body (i : Int) (ok, out) =
+      if !m.inside (pos i) then (true, (ok, Val.nan))
+      else if m.validAt (pos i) then (true, (ok, m.dispAt (pos i)))
+      else (false, (ok, out))) :
+    forRange 1 b 1 body (true, Val.nan) = (true, scanLoop Val.nan m pos (rangeLen 1 b 1) 1) := by
+  have := forLoop_scanLoop m pos body h (rangeLen 1 b 1) 1 true
+  simpa [forRange] using this
+
+/-- the 16 directions of the mc-cnn mismatch kernel, as the literal `np.array([[0.0, 1.0], [-0.5, 1.0], …])` is translated -/
+def mcDirs : List (List Rat) :=
+  [[(0 : Rat), (1 : Rat)], [((-1 : Rat) / 2), (1 : Rat)], [(-1 : Rat), (1 : Rat)], [(-1 : Rat), ((1 : Rat) / 2)], [(-1 : Rat), (0 : Rat)], [(-1 : Rat), ((-1 : Rat) / 2)], [(-1 : Rat), (-1 : Rat)], [((-1 : Rat) / 2), (-1 : Rat)], [(0 : Rat), (-1 : Rat)], [((1 : Rat) / 2), (-1 : Rat)], [(1 : Rat), (-1 : Rat)], [(1 : Rat), ((-1 : Rat) / 2)], [(1 : Rat), (0 : Rat)], [(1 : Rat), ((1 : Rat) / 2)], [(1 : Rat), (1 : Rat)], [((1 : Rat) / 2), (1 : Rat)]]
+
+/-- every entry of the source's table is half the hand model's (doubled, integer) `dirs16` entry -/
+theorem mcDirs_half (k : Nat) (hk : k < 16) :
+    get2 (tab2 (0 : Rat) mcDirs) 16 2 (k : Int) 0 = (((dirs16.getD k (0, 0)).1 : Int) : Rat) / 2
+    ∧ get2 (tab2 (0 : Rat) mcDirs) 16 2 (k : Int) 1 = (((dirs16.getD k (0, 0)).2 : Int) : Rat) / 2 := by
+  interval_cases k <;> (simp [get2, wrap, tab2, mcDirs, dirs16]; try norm_num)
+
+/-- **One pixel of `interpolate_mismatch_mc_cnn`, as the source defines it today, is the hand model's `mismMcPixel`**
+    (guarded text: accumulator initialised with NaN, filled only when a finite source is in sight; `|=`): the 16 scans
+    along `int(dir * i)`, `i = 1 … max(nrow, ncol) - 1`, the edge test, the first valid pixel, the guard and the
+    `nanmedian` — for every map and every pixel inside it, every read inside the arrays. -/
+theorem mismatchMcCnn_generated_eq (m : DMap) (r c : Nat) (hr : r < m.rows) (hc : c < m.cols) :
+    mismatchMcCnnPx (embedDisp m) m.rows m.cols (embedFlag m) m.rows m.cols r c
+      = .ok ((mismMcPixel ⟨true, .or⟩ m r c).1, (((mismMcPixel ⟨true, .or⟩ m r c).2 : Nat) : Int)) := by
+  have hr0 : (0 : Int) ≤ r := Int.natCast_nonneg r
+  have hc0 : (0 : Int) ≤ c := Int.natCast_nonneg c
+  have hrR : (r : Int) < m.rows := by exact_mod_cast hr
+  have hcC : (c : Int) < m.cols := by exact_mod_cast hc
+  have hb : embedFlag m (r : Int) (c : Int) = ((m.flag r c : Nat) : Int) := by simp [embedFlag]
+  have h32 : (32 : Int) = ((32 : Nat) : Int) := rfl
+  have hft := flag_test m r c 512
+  rw [show ((512 : Nat) : Int) = 512 from rfl] at hft
+  have hlen : rangeLen 1 (imax (m.cols : Int) (m.rows : Int)) 1 = max m.cols m.rows - 1 := by
+    simp only [rangeLen]; unfold imax; split <;> simp <;> omega
+  have htab := mcDirs_half
+  simp only [mcDirs] at htab
+  have hmi : mismatch = 512 := rfl
+  have hfm : filledMismatch = 32 := rfl
+  simp only [mismatchMcCnnPx, get2_of (embedFlag m) _ _ hr0 hc0, get2_of (embedDisp m) _ _ hr0 hc0,
+    inb2_of hr0 hrR hc0 hcC, embedFlag_nonneg, decide_true, Bool.and_true]
+  rw [hft]
+  -- the 16 cells of the accumulator: each is the hand model's scan along its direction
+  rw [collect_ok _ (fun k => scanLoop Val.nan m (posMc r c (dirs16.getD k.toNat (0, 0))) (max m.cols m.rows - 1) 1) 16 ?cells]
+  · have hmap : ((List.range 16).map fun (j : Nat) =>
+          (fun (k : Int) => scanLoop Val.nan m (posMc r c (dirs16.getD k.toNat (0, 0))) (max m.cols m.rows - 1) 1) (j : Int))
+        = dirs16.map fun d => scanLoop Val.nan m (posMc r c d) (max m.cols m.rows - 1) 1 := by
+      simp only [Int.toNat_natCast]
+      rfl
+    rw [hmap]
+    unfold mismMcPixel
+    simp only [hmi, hfm, Res.isOk, Res.getD, Bool.and_true, if_true]
+    generalize (dirs16.map fun d => scanLoop Val.nan m (posMc r c d) (max m.cols m.rows - 1) 1) = V
+    by_cases hmis : ((m.flag r c &&& 512) != 0) = true
+    · have hle : 512 ≤ m.flag r c := le_of_and_two_pow (k := 9) hmis
+      have hnn : (0 : Int) ≤ ((m.flag r c : Nat) : Int) - ((512 : Nat) : Int) := by omega
+      have hbor := sub_bor (m.flag r c) 512 32 hle
+      simp only [hmis, if_true, hb, h32]
+      by_cases hg : (nums V).isEmpty = true
+      · simp [hg, anyFinite, embedDisp]
+      · have hbor' : bor (((m.flag r c : Nat) : Int) - 512) 32 = (((m.flag r c - 512) ||| 32 : Nat) : Int) := by
+          simpa using hbor
+        simp [hg, anyFinite, PyInterp.nanmedian, raise, hle, hbor']
+    · simp [hmis, embedDisp, embedFlag]
+  case cells =>
+    intro j hj
+    obtain ⟨t0, t1⟩ := htab j hj
+    have hj0 : (0 : Int) ≤ (j : Int) := Int.natCast_nonneg j
+    have hj16 : (j : Int) < 16 := by exact_mod_cast hj
+    simp only [Int.toNat_natCast]
+    rw [forRange_scanLoop m (posMc r c (dirs16.getD j (0, 0))) _ _ ?body]
+    · simp [hlen]
+    case body =>
+      intro i ok out
+      simp only [t0, t1, truncRat_half, inb2_of hj0 hj16 (show (0 : Int) ≤ 0 by omega) (show (0 : Int) < 2 by omega),
+        inb2_of hj0 hj16 (show (0 : Int) ≤ 1 by omega) (show (1 : Int) < 2 by omega), Bool.and_true, posMc, truncHalf]
+      obtain ⟨dr, hdr⟩ : ∃ dr : Int, Int.tdiv ((dirs16.getD j (0, 0)).1 * (i : Int)) 2 = dr := ⟨_, rfl⟩
+      obtain ⟨dc, hdc⟩ : ∃ dc : Int, Int.tdiv ((dirs16.getD j (0, 0)).2 * (i : Int)) 2 = dc := ⟨_, rfl⟩
+      simp only [hdr, hdc]
+      by_cases hin : m.inside ((r : Int) + dc, (c : Int) + dr) = true
+      · have hin' := hin
+        simp only [DMap.inside, Bool.and_eq_true, decide_eq_true_eq] at hin'
+        obtain ⟨⟨⟨h1, h2⟩, h3⟩, h4⟩ := hin'
+        have hv := valid_test m ((r : Int) + dc, (c : Int) + dr)
+        by_cases hval : m.validAt ((r : Int) + dc, (c : Int) + dr) = true
+        · simp only [hin, hval, Bool.not_true, Bool.false_eq_true, if_false, if_true]
+          split
+          · rename_i hcnd; simp only [Bool.or_eq_true, decide_eq_true_eq] at hcnd; omega
+          · simp [get2_of (embedFlag m) _ _ h1 h3, get2_of (embedDisp m) _ _ h1 h3, inb2_of h1 h2 h3 h4,
+              embedFlag_nonneg, hv, hval, DMap.dispAt, embedDisp]
+        · simp only [hin, hval, Bool.not_true, Bool.false_eq_true, if_false]
+          split
+          · rename_i hcnd; simp only [Bool.or_eq_true, decide_eq_true_eq] at hcnd; omega
+          · simp [get2_of (embedFlag m) _ _ h1 h3, inb2_of h1 h2 h3 h4, embedFlag_nonneg, hv, hval]
+      · simp only [hin, Bool.not_false, if_true]
+        split
+        · rfl
+        · rename_i hcnd
+          simp only [DMap.inside, Bool.and_eq_true, decide_eq_true_eq] at hin
+          simp only [Bool.or_eq_true, decide_eq_true_eq, not_or] at hcnd
+          omega
+
+/-! ## `interpolate_nodata_sgm` (pandora/img_tools.py) -/
+
+/-- **One pixel of `interpolate_nodata_sgm`, as the source defines it today, is `Interp.nodataSgmPixel`**: an invalid
+    pixel takes the `nanmedian` of `find_valid_neighbors` along the 8 sgm directions and the flag word FILLED_NODATA. -/
+theorem nodataSgm_generated_eq (m : DMap) (r c : Nat) (hr : r < m.rows) (hc : c < m.cols) :
+    nodataSgmPx (embedDisp m) m.rows m.cols (embedFlag m) m.rows m.cols r c
+      = .ok ((nodataSgmPixel m r c).1, (((nodataSgmPixel m r c).2 : Nat) : Int)) := by
+  have hr0 : (0 : Int) ≤ r := Int.natCast_nonneg r
+  have hc0 : (0 : Int) ≤ c := Int.natCast_nonneg c
+  have hrR : (r : Int) < m.rows := by exact_mod_cast hr
+  have hcC : (c : Int) < m.cols := by exact_mod_cast hc
+  have hcall := findValidNeighbors_generated_eq m r c
+  simp only [sgmDirs] at hcall
+  have hft := flag_test m r c 963
+  rw [show ((963 : Nat) : Int) = 963 from rfl] at hft
+  have hpi : pixelInvalid = 963 := rfl
+  have hfn : filledNodata = 1024 := rfl
+  simp only [nodataSgmPx, get2_of (embedFlag m) _ _ hr0 hc0, get2_of (embedDisp m) _ _ hr0 hc0,
+    inb2_of hr0 hrR hc0 hcC, embedFlag_nonneg, decide_true, Bool.and_true, hcall, Res.isOk, Res.getD, hft]
+  unfold nodataSgmPixel
+  simp only [hpi, hfn]
+  by_cases hinv : ((m.flag r c &&& 963) != 0) = true
+  · simp [hinv, PyInterp.nanmedian]
+  · simp [hinv, embedDisp, embedFlag]
+
 /-! ## Non-vacuity -/
 
 def exMap : DMap :=
@@ -275,5 +655,31 @@ example : Interp.findValidNeighbors exMap 1 1 = [.num 8, .num 7, .num 4, .nan, .
   decide +kernel
 example : occlusionSgmPx (embedDisp exMap) 3 3 (embedFlag exMap) 3 3 1 1 = .ok (.num 3, 16) := by decide +kernel
 example : occlSgmPixel ⟨true, .or⟩ exMap 1 1 = (.num 3, 16) := by decide +kernel
+
+/-- a mismatch next to an occlusion (converted) and one away from it (median of its neighbours) -/
+def exMap2 : DMap :=
+  { rows := 1, cols := 5,
+    disp := fun _ c => if c = 1 ∨ c = 3 then .nan else .num (c + 2),
+    flag := fun _ c => if c = 0 then 256 else if c = 1 ∨ c = 3 then 512 else 0 }
+
+example : mismatchSgmPx (embedDisp exMap2) 1 5 (embedFlag exMap2) 1 5 0 1 = .ok (.nan, 256) := by decide +kernel
+example : mismatchSgmPx (embedDisp exMap2) 1 5 (embedFlag exMap2) 1 5 0 3 = .ok (.num 5, 32) := by decide +kernel
+example : mismSgmPixel ⟨true, .or⟩ exMap2 0 3 = (.num 5, 32) := by decide +kernel
+
+-- occlusion at column 0 of `exMap2` (nothing valid on the left: filled from the right), and a row without valid pixel
+example : occlusionMcCnnPx (embedDisp exMap2) 1 5 (embedFlag exMap2) 1 5 0 0 = .ok (.num 4, 16) := by decide +kernel
+example : occlMcPixel ⟨true, .or⟩ exMap2 0 0 = (.num 4, 16) := by decide +kernel
+
+/-- a mismatch seen from (1, 2) of a 3×5 map: half-step directions reach different pixels than the sgm ones -/
+def exMap3 : DMap :=
+  { rows := 3, cols := 5,
+    disp := fun r c => if r = 1 ∧ c = 2 then .nan else .num (5 * r + c),
+    flag := fun r c => if r = 1 ∧ c = 2 then 512 else if r = 0 ∧ c = 4 then 2 else 0 }
+
+example : mismatchMcCnnPx (embedDisp exMap3) 3 5 (embedFlag exMap3) 3 5 1 2 = .ok (.num 7, 32) := by decide +kernel
+example : mismMcPixel ⟨true, .or⟩ exMap3 1 2 = (.num 7, 32) := by decide +kernel
+
+example : nodataSgmPx (embedDisp exMap) 3 3 (embedFlag exMap) 3 3 1 1 = .ok (.num 6, 1024) := by decide +kernel
+example : nodataSgmPixel exMap 1 1 = (.num 6, 1024) := by decide +kernel
 
 end Pandora.C14Kernels
